@@ -437,6 +437,21 @@ pub fn run(prop: &str, thorough: bool, case_seed: u64) -> ExecOut {
         }
         "C11" => p.fams = vec![Fam::FGroup],
         "C12" => p.fams = vec![Fam::SGroup],
+        // the family's reference model (positions, short-circuit, row/order/end rules) under cross-thread wake-ups
+        "C04" => p.fams = vec![Fam::Join],
+        "C05" => {
+            p.fams = vec![Fam::TryJoin];
+            p.err_pct = 30;
+        }
+        "C06" => p.fams = vec![Fam::Race],
+        "C07" => {
+            p.fams = vec![Fam::RaceOk];
+            p.err_pct = 75;
+        }
+        "C08" => p.fams = vec![Fam::Merge],
+        "C09" => p.fams = vec![Fam::Zip],
+        "C10" => p.fams = vec![Fam::Chain],
+        "C19" => p.fams = vec![Fam::WaitF, Fam::WaitS],
         _ => {}
     }
     if prop == "C17" {
